@@ -436,6 +436,8 @@ compile:
 	task.Status.Print(m.Addr)
 	if err := g.Wait(); err != nil {
 		task.Errorf("failed to commit combiner: %v", err)
+		simhook.Yield("bm.returned", func() string { return fmt.Sprintf("%s|%s|%d", task.Name, m.Addr, procs) })
+		m.Done(procs, err)
 		return
 	}
 
